@@ -321,12 +321,22 @@ func (eval *Evaluator) SlotsToCoeffs(ctReal, ctImag *rlwe.Ciphertext, stcMatrice
 	// If full packing, the repacking can be done directly using ct0 and ct1.
 	if ctImag != nil {
 
-		if err = eval.Mul(ctImag, 1i, opOut); err != nil {
-			return fmt.Errorf("cannot SlotsToCoeffs: %w", err)
-		}
+		if opOut == ctReal {
 
-		if err = eval.Add(opOut, ctReal, opOut); err != nil {
-			return fmt.Errorf("cannot SlotsToCoeffs: %w", err)
+			// The receiver is the real part: adds i * ctImag on it
+			if err = eval.MulThenAdd(ctImag, 1i, opOut); err != nil {
+				return fmt.Errorf("cannot SlotsToCoeffs: %w", err)
+			}
+
+		} else {
+
+			if err = eval.Mul(ctImag, 1i, opOut); err != nil {
+				return fmt.Errorf("cannot SlotsToCoeffs: %w", err)
+			}
+
+			if err = eval.Add(opOut, ctReal, opOut); err != nil {
+				return fmt.Errorf("cannot SlotsToCoeffs: %w", err)
+			}
 		}
 
 		if err = eval.dft(opOut, stcMatrices.Matrices, opOut); err != nil {
